@@ -33,7 +33,7 @@ def eff(*names, touching=None):
 
 
 PROPS = {
-    "C01": dict(profiles=["money", "mixed"], monitors=["escrowBacked", "conservation", "settlement", "batchDebit"],
+    "C01": dict(profiles=["money", "mixed", "modsvc"], monitors=["escrowBacked", "conservation", "settlement", "batchDebit"],
                 state=any_of(acct_lines({ESCROW}), kinds("RQ", "AI", "EF")), effects=eff("transfer", touching={ESCROW}), errnames=False),
     "C02": dict(profiles=["money", "mixed", "lifecycle"], monitors=["settlement", "batchDebit", "conservation", "escrowBacked", "respondLaw"],
                 state=kinds("A", "RQ", "AI", "EF", "OE", "RS"), effects=eff("transfer", "slash"), errnames=False),
